@@ -255,6 +255,7 @@ func (l *eventList) advanceLastSeq(seq sequenceNum) int {
 func (l *eventList) Clear() ([]*event, int) {
 	l.Lock()
 	defer l.Unlock()
+	verifYield("in:clear-locked")
 
 	var lost int
 	var seq sequenceNum
@@ -281,6 +282,7 @@ func (l *eventList) Clear() ([]*event, int) {
 func (l *eventList) Put(msg *auparse.AuditMessage) {
 	l.Lock()
 	defer l.Unlock()
+	verifYield("in:put-locked")
 
 	seq := sequenceNum(msg.Sequence)
 	e, found := l.events[seq]
@@ -310,6 +312,7 @@ func (l *eventList) Put(msg *auparse.AuditMessage) {
 func (l *eventList) CleanUp() ([]*event, int) {
 	l.Lock()
 	defer l.Unlock()
+	verifYield("in:cleanup-locked")
 
 	var lost int
 	var seq sequenceNum
